@@ -20,9 +20,9 @@ import (
 	"strings"
 )
 
-// evyRepoDir is the directory of the evylang.dev/evy module this binary was
+// c19EvyRepoDir is the directory of the evylang.dev/evy module this binary was
 // built against (the replace target in go.mod), or VERIF_REPO.
-func evyRepoDir() string {
+func c19EvyRepoDir() string {
 	if p := os.Getenv("VERIF_REPO"); p != "" {
 		return p
 	}
@@ -177,7 +177,7 @@ func readSvgConsts(file string) (*svgConsts, error) {
 	return c, nil
 }
 
-func coqStr(s string) string {
+func c19CoqStr(s string) string {
 	parts := []string{}
 	for _, r := range s {
 		parts = append(parts, fmt.Sprintf("%d%%N", r))
@@ -230,7 +230,7 @@ func (c *svgConsts) floatField(e ast.Expr) (float64, bool, error) {
 }
 
 func genSvgConsts(dir string) error {
-	file := filepath.Join(evyRepoDir(), "pkg", "cli", "svg", "runtime.go")
+	file := filepath.Join(c19EvyRepoDir(), "pkg", "cli", "svg", "runtime.go")
 	c, err := readSvgConsts(file)
 	if err != nil {
 		return err
@@ -260,7 +260,7 @@ func genSvgConsts(dir string) error {
 			}
 			continue
 		}
-		fmt.Fprintf(&b, "Definition default_%s : str := %s. (* %q *)\n", f, coqStr(s), s)
+		fmt.Fprintf(&b, "Definition default_%s : str := %s. (* %q *)\n", f, c19CoqStr(s), s)
 	}
 	sw, ok2, err := c.floatField(da["StrokeWidth"])
 	if err != nil || !ok2 {
@@ -277,7 +277,7 @@ func genSvgConsts(dir string) error {
 		if err != nil {
 			return fmt.Errorf("gen_svg: defaultTextAttr.%s: %v", f, err)
 		}
-		fmt.Fprintf(&b, "Definition default_%s : str := %s. (* %q *)\n", f, coqStr(s), s)
+		fmt.Fprintf(&b, "Definition default_%s : str := %s. (* %q *)\n", f, c19CoqStr(s), s)
 	}
 	for _, f := range []string{"FontSize", "FontWeight"} {
 		v, ok, err := c.floatField(dt[f])
@@ -309,7 +309,7 @@ func genSvgConsts(dir string) error {
 			}
 			continue
 		}
-		fmt.Fprintf(&b, "Definition root_%s : str := %s. (* %q *)\n", f, coqStr(s), s)
+		fmt.Fprintf(&b, "Definition root_%s : str := %s. (* %q *)\n", f, c19CoqStr(s), s)
 	}
 	optFloat := func(name string, e ast.Expr) error {
 		v, ok, err := c.floatField(e)
@@ -335,7 +335,7 @@ func genSvgConsts(dir string) error {
 			return fmt.Errorf("gen_svg: the model assumes no letter-spacing on the root element")
 		}
 		if f != "LetterSpacing" {
-			fmt.Fprintf(&b, "Definition root_%s : str := %s. (* %q *)\n", f, coqStr(s), s)
+			fmt.Fprintf(&b, "Definition root_%s : str := %s. (* %q *)\n", f, c19CoqStr(s), s)
 		}
 	}
 	if err := optFloat("FontSize", rt["FontSize"]); err != nil {
@@ -347,8 +347,8 @@ func genSvgConsts(dir string) error {
 	if c.clearDefault == "" || c.clearSize == "" || c.gridThick == 0 || c.gridBound == 0 || c.gridEvery == 0 {
 		return fmt.Errorf("gen_svg: Clear/Gridn constants not found (%q %q %v %v %v)", c.clearDefault, c.clearSize, c.gridThick, c.gridBound, c.gridEvery)
 	}
-	fmt.Fprintf(&b, "Definition clear_default_color : str := %s. (* %q *)\n", coqStr(c.clearDefault), c.clearDefault)
-	fmt.Fprintf(&b, "Definition clear_size : str := %s. (* %q *)\n", coqStr(c.clearSize), c.clearSize)
+	fmt.Fprintf(&b, "Definition clear_default_color : str := %s. (* %q *)\n", c19CoqStr(c.clearDefault), c.clearDefault)
+	fmt.Fprintf(&b, "Definition clear_size : str := %s. (* %q *)\n", c19CoqStr(c.clearSize), c.clearSize)
 	fmt.Fprintf(&b, "Definition grid_thick_width : float := %s. (* %v *)\n", coqFloat(c.gridThick), c.gridThick)
 	fmt.Fprintf(&b, "Definition grid_bound : float := %s. (* %v *)\n", coqFloat(c.gridBound), c.gridBound)
 	fmt.Fprintf(&b, "Definition grid_thick_every : nat := %d.\n", c.gridEvery)
